@@ -67,6 +67,9 @@ def r1(text):
         (r"\.get_mut\(\)\s*\.as_mut\(\)\s*\.poll_next\(", ".poll_next("),
         (r"\bself\s*\.as_mut\(\)\s*\.project\(\)", "self"),
         (r"\bself\.as_mut\(\)", "self"),
+        (r"\bself\.project\(\)", "self"),
+        (r"\bBodyStreamProj::", "BodyStream::"),
+        (r"#\[pin\]\s*", ""),
     ], text)
 
 
@@ -136,6 +139,12 @@ def t_stream(text):
         (r"Pin<\s*Box<\s*dyn\s+Stream<\s*Item\s*=\s*Result<D,\s*E>\s*>\s*\+\s*Send\s*>\s*>", "Inner<D, E>"),
         (r"Box<\s*dyn\s+Entity<\s*Data\s*=\s*D,\s*Error\s*=\s*E\s*>\s*>", "EntityBox<D, E>"),
         (r"\bcrate::(body|serving|chunker)::", ""),
+        (r"<D = bytes::Bytes, E = BoxError>", "<D, E>"),
+        (r"\bhttp_body::SizeHint\b", "SizeHint"),
+        (r"\bpub\(crate\)\s*", "pub "),
+        (r"<D = bytes::Bytes, E = BoxError>", "<D, E>"),
+        (r"\bhttp_body::SizeHint\b", "SizeHint"),
+        (r"\bpub\(crate\)\s*", "pub "),
     ], text)
 
 
